@@ -26,6 +26,12 @@ type c48Step struct {
 	R    [2]int64   `json:"r"`
 	Obs  [5]int64   `json:"o"`
 	Live [][2]int64 `json:"l"`
+	H    [2]int64   `json:"h"` // Model.step_code of (R, Obs)
+}
+
+// c48StepCode mirrors Model.step_code.
+func c48StepCode(r [2]int64, o [5]int64) [2]int64 {
+	return [2]int64{r[0] + 4*r[1] + 4194304*o[0] + 17179869184*o[1] + 70368744177664*o[2], (o[3] + 3*o[4]) & 2305843009213693951}
 }
 
 type c48Out struct {
@@ -35,19 +41,15 @@ type c48Out struct {
 	At    int       `json:"at"`
 }
 
-const c48P = 2147483647
-
-func c48mod(x int64) int64 { return ((x % c48P) + c48P) % c48P }
-
 func c48Observe(m *TTLMap[int64, int64]) [5]int64 {
 	var od int64
-	for _, e := range m.order {
-		od = c48mod(od*1000003 + c48mod(e.key*7919+e.value*104729+e.expireAt) + 1)
+	for i, e := range m.order {
+		od += int64(i+1) * (e.key*7919 + e.value*104729 + e.expireAt)
 	}
 	var id int64
 	for k, idx := range m.items {
 		x := k*1009 + int64(idx) + 1
-		id = c48mod(id + c48mod(x*x))
+		id += x * x
 	}
 	return [5]int64{int64(len(m.items)), int64(len(m.order)), int64(m.head), id, od}
 }
@@ -105,6 +107,7 @@ func c48RunCase(c c48Case) (out c48Out) {
 		}
 		st.Obs = c48Observe(m)
 		st.Live = c48Live(m, clock)
+		st.H = c48StepCode(st.R, st.Obs)
 		out.Steps = append(out.Steps, st)
 	}
 	return out
